@@ -75,13 +75,20 @@ Definition typed (t : string) (k : string) (v : json) : json :=
   JObj [(kw "type", JArr [jstr t]); (kw k, v)].
 Arguments typed t%string k%string v.
 
+(* _negate: NOT(NOT(x)) = x *)
+Definition negate (p : json) : json :=
+  match p with
+  | JObj [(k, v)] => if iskw k "not" then v else obj1 "not" p
+  | _ => obj1 "not" p
+  end.
+
 Definition invert_kw (key : str) (x : json) : res json :=
   if iskw key "minimum" then Ok (typed "number" "exclusiveMaximum" x)
   else if iskw key "maximum" then Ok (typed "number" "exclusiveMinimum" x)
   else if iskw key "exclusiveMinimum" then Ok (typed "number" "maximum" x)
   else if iskw key "exclusiveMaximum" then Ok (typed "number" "minimum" x)
   else if iskw key "type" then
-    do t <- as_list x; Ok (obj1 "type" (JArr (pdiff ALL_TYPES t)))
+    Ok (obj1 "type" (JArr (pdiff ALL_TYPES (to_list x))))
   else if iskw key "enum" then Ok (obj1 "NOT_enum" x)
   else if iskw key "NOT_enum" then Ok (obj1 "enum" x)
   else if iskw key "maxLength" then do n <- num_of x; Ok (typed "string" "minLength" (JNum (n + 1)))
@@ -91,7 +98,7 @@ Definition invert_kw (key : str) (x : json) : res json :=
   else if iskw key "properties" then
     do props <- as_dict x;
     Ok (JObj [(kw "type", jstr "object");
-              (kw "properties", JObj (map (fun '(n, p) => (n, obj1 "not" p)) props));
+              (kw "properties", JObj (map (fun '(n, p) => (n, negate p)) props));
               (kw "required", JArr (map (fun '(n, _) => JStr n) props))])
   else if iskw key "multipleOf" then Ok (typed "number" "NOT_multipleOf" x)
   else if iskw key "required" then
@@ -99,7 +106,7 @@ Definition invert_kw (key : str) (x : json) : res json :=
     Ok (JObj [(kw "type", JArr [jstr "object"]);
               (kw "properties", JObj (fold_left (fun d i => match i with JStr s => dset s (JBool false) d | _ => d end) l []))])
   else if iskw key "items" then
-    Ok (JObj [(kw "type", jstr "array"); (kw "items", obj1 "not" x)])
+    Ok (JObj [(kw "type", jstr "array"); (kw "items", negate x)])
   else if iskw key "minItems" then
     do n <- num_of x;
     if Z.ltb 0 n then Ok (JObj [(kw "type", jstr "array"); (kw "maxItems", JNum (n - 1))]) else Ok (obj1 "enum" (JArr []))
